@@ -132,6 +132,24 @@ func checkGiveUp(c GiveUpCase, cv *cov) (v *evid.Violation) {
 				return
 			}
 		}
+		// everything delivered is consumed now. A Release must not bring any of it back: the source stays silent,
+		// so nothing can be read any more
+		if rerr := r.Release(releaseArg(c.Want)); rerr != nil {
+			v = evid.Failf("Release after the silence: %v", rerr)
+			return
+		}
+		if rl := r.ReadLen(); rl != 0 {
+			v = evid.Failf("ReadLen=%d right after Release", rl)
+			return
+		}
+		if b, e := r.Peek(1); e == nil {
+			v = evid.Failf("after every delivered byte had been consumed and the reader released, Peek(1) returned %x although the source has delivered nothing further (stream position %d)", b, pos)
+			return
+		}
+		if b, e := r.Next(1); e == nil {
+			v = evid.Failf("after every delivered byte had been consumed and the reader released, Next(1) returned %x although the source has delivered nothing further", b)
+			return
+		}
 	}
 	if p, st := evid.Safe(body); p != nil {
 		return &evid.Violation{Msg: fmt.Sprintf("panic: %v", p), Stack: st}
